@@ -282,6 +282,9 @@ def _case_hist(ctx, case, h, d):
         try:
             was_iso = bool(y.is_isometric)
             y = apply_step(y, st)
+        except OverflowError as e:           # numpy refuses e.g. a negative integer offset on an unsigned column
+            ctx.count('hist', 'raises:OverflowError(unsigned table)')
+            return
         except (ValueError, TypeError, ZeroDivisionError) as e:
             ctx.count('hist', f'raises:{type(e).__name__}')
             ctx.oracle(False, f'history {hd}: step {step_desc(st)} raised {type(e).__name__}: {e} on units {y.units!r}', case)
@@ -477,6 +480,8 @@ def gen_hist(r, backend, idx=None):
                     st['f'] = {'shape': 's', 'vals': [r.choice([3, 2.5, 0.5, 125, 1.5, 7])], 'cont': 'num'}
                 else:
                     st['f']['vals'] = [r.choice([2.5, 0.5, 1.5, 3]) for _ in st['f']['vals']]
+            elif st['t'] in ('add', 'sub'):        # float offsets (a negative Python int does not fit an unsigned column)
+                st['f']['vals'] = [r.choice([0.5, 2.5, -1.5, 100.0]) for _ in st['f']['vals']]
     if nd['units'] is None or nd['units'][0] == 'num':
         steps = [s for s in steps if s['t'] != 'convert']
     n = len(nd['rows'])
